@@ -386,6 +386,10 @@ pub(crate) trait StylesheetParser<'a>: BaseParser + Sized {
             ArgumentInvocation::empty(self.toks().current_span())
         };
 
+        // trailing whitespace after the arguments is insignificant (the indented
+        // syntax would otherwise complain "expected newline.")
+        self.whitespace()?;
+
         self.expect_statement_separator(Some("@content rule"))?;
 
         self.flags_mut().set(ContextFlags::FOUND_CONTENT_RULE, true);
